@@ -611,6 +611,103 @@ def op_signature(fn):
     return ops
 
 
+def op_traces(fn, limit=64):
+    """the set of ordered stream-operation sequences a serializer function can perform, one per path
+    (branches fork, an early return ends a path, a loop is one operation carrying the traces of its body),
+    Write/Read prefixes removed. Two functions with the same set do the same things to the stream,
+    however their branches are written."""
+    RET = ("<ret>",)
+
+    def norm(name):
+        name = name.split("::")[-1]
+        if name in CALLBACKS:
+            return CALLBACKS[name]
+        for pre in ("Write", "Read"):
+            if name.startswith(pre):
+                return name[len(pre):]
+        return name
+
+    def seq(a, b):
+        res = set()
+        for x in a:
+            if x and x[-1] == RET:
+                res.add(x)
+                continue
+            for y in b:
+                res.add(x + y)
+                if len(res) > limit:
+                    return res
+        return res
+
+    def expr_ops(n):
+        """operations inside an expression, in evaluation order (a single trace)"""
+        ops = []
+
+        def visit(n):
+            k = n.get("kind")
+            inner = n.get("inner", []) or []
+            if k in ("CallExpr", "CXXMemberCallExpr"):
+                name = callee_name(n)
+                args = [txt(a) for a in inner[1:]]
+                base = ""
+                if inner and inner[0].get("kind") in ("MemberExpr", "CXXDependentScopeMemberExpr", "UnresolvedMemberExpr"):
+                    base = txt((inner[0].get("inner") or [{}])[0])
+                    if inner[0].get("kind") == "CXXDependentScopeMemberExpr":
+                        name = inner[0].get("member", name)
+                for ch in inner[1:]:
+                    visit(ch)
+                if base == "stream":
+                    ops.append(("stream." + norm(name),))
+                elif args and args[0] == "stream":
+                    ops.append((norm(name),))
+                return
+            if k == "LambdaExpr":
+                return
+            for ch in inner:
+                if isinstance(ch, dict):
+                    visit(ch)
+
+        visit(n)
+        return tuple(ops)
+
+    def stmt(n):
+        k = n.get("kind")
+        inner = [c for c in (n.get("inner", []) or []) if isinstance(c, dict)]
+        if k == "CompoundStmt":
+            res = {()}
+            for ch in inner:
+                res = seq(res, stmt(ch))
+            return res
+        if k == "IfStmt":
+            cond = {expr_ops(inner[0])} if inner else {()}
+            then = stmt(inner[1]) if len(inner) > 1 else {()}
+            els = stmt(inner[2]) if len(inner) > 2 else {()}
+            return seq(cond, then | els)
+        if k in ("ForStmt", "CXXForRangeStmt", "WhileStmt", "DoStmt"):
+            body = stmt(inner[-1]) if inner else {()}
+            body = {tuple(o for o in t if o != RET) for t in body}
+            body.discard(())
+            if not body:
+                return {()}
+            return {((("loop",) + tuple(sorted(body, key=repr))),)}
+        if k == "ReturnStmt":
+            pre = expr_ops(n)
+            return {pre + (RET,)}
+        return {expr_ops(n)}
+
+    b = body_of(fn)
+    if b is None:
+        return frozenset()
+    res = stmt(b)
+    return frozenset(tuple(o for o in t if o != RET) for t in res)
+
+
+def fmt_traces(ts):
+    def one(t):
+        return " ".join(("loop{" + " | ".join(one(x) for x in o[1:]) + "}") if o and o[0] == "loop" else o[0] for o in t) or "(nothing)"
+    return " | ".join(sorted(one(t) for t in ts))
+
+
 TWIN_EXCEPTIONS = {
     "DynamicNDArray": "the writer emits the rank and then each extent in a loop; the reader reads the same bytes with ReadVector<size_t, ReadInteger>",
     "NDArray": "the writer emits each extent in a loop; the reader reads the same bytes with ReadArray<size_t, ReadInteger, N>",
@@ -653,16 +750,16 @@ def rule_serializer_twins(out, tier):
             out.bad(rid, key + "/overloads", "%s:%d" % (rel, ws[0].get("_line", 0)), "%d overloads of %s but %d of %s" % (len(ws), name, len(rs), rname))
             continue
         for i, (w, r) in enumerate(zip(ws, rs)):
-            a, b = op_signature(w), op_signature(r)
-            table["%s#%d" % (suffix, i)] = {"write": a, "read": b}
+            a, b = op_traces(w), op_traces(r)
+            table["%s#%d" % (suffix, i)] = {"write": fmt_traces(a), "read": fmt_traces(b)}
             k2 = key if len(ws) == 1 else "%s/overload%d" % (key, i + 1)
             p = "%s:%d" % (rel, r.get("_line", 0))
             if a == b:
-                out.ok(rid, k2, p, "same operations: " + " ".join(a))
+                out.ok(rid, k2, p, "same operations on every path: " + fmt_traces(a))
             elif suffix in TWIN_EXCEPTIONS:
-                out.ok(rid, k2, p, "table exception: %s — write: %s / read: %s" % (TWIN_EXCEPTIONS[suffix], " ".join(a), " ".join(b)))
+                out.ok(rid, k2, p, "table exception: %s — write: %s / read: %s" % (TWIN_EXCEPTIONS[suffix], fmt_traces(a), fmt_traces(b)))
             else:
-                out.bad(rid, k2, p, "the reader does not mirror the writer: write = [%s], read = [%s]" % (" ".join(a), " ".join(b)))
+                out.bad(rid, k2, p, "the reader does not mirror the writer: write = [%s], read = [%s]" % (fmt_traces(a), fmt_traces(b)))
     out.tables["serializer_twins"] = table
 
 
